@@ -107,6 +107,14 @@ func VerifC03Recorded(v *Voter, round *big.Int, idx uint32, vt VoteType, kind pa
 	return s.addressVotes[addr] != nil
 }
 
+// VerifC03BlsVerifier is the voter's BlsVerifier (the caches of decoded BLS
+// signatures / public keys that PackVotes and vote verification share).
+func VerifC03BlsVerifier(v *Voter) *BlsVerifier { return v.blsMgr.Verifier }
+
+// VerifC03ShareBlsVerifier makes the server use the voter's BlsVerifier, as
+// StartMining does (s.blsVerifier = s.voter.blsMgr.Verifier).
+func VerifC03ShareBlsVerifier(s *Server, v *Voter) { s.blsVerifier = v.blsMgr.Verifier }
+
 // VerifC03NewServer builds a Server holding only what verifySortition,
 // getLookbackStakeInfo and verifyVotes read.
 func VerifC03NewServer(chain consensus.ChainReader, yp *params.YouParams) *Server {
